@@ -307,6 +307,16 @@ func (m *RWMutex) RUnlock() {
 	m.mu.Unlock()
 }
 
+// Try is a compiled function that calls f and contains its panic, as test runners, HTTP
+// servers and the like do.
+func Try(f func()) (rec interface{}) {
+	defer func() {
+		rec = recover()
+	}()
+	f()
+	return nil
+}
+
 // Rec3 is a compiled function of three parameters and no result (a shape of its own in the
 // interpreter's call compiler): it logs what it receives.
 func Rec3(a int, b string, c int) {
@@ -344,6 +354,7 @@ func init() {
 			"Fault":          reflect.ValueOf(Fault),
 			"NewMutex":       reflect.ValueOf(NewMutex),
 			"Rec3":           reflect.ValueOf(Rec3),
+			"Try":            reflect.ValueOf(Try),
 			"NewRWMutex":     reflect.ValueOf(NewRWMutex),
 		},
 		Types: map[string]reflect.Type{
